@@ -216,6 +216,7 @@ def stream_tables(ctx, rng, n):
 def stream_chains(ctx, rng, thorough):
     depths = [1, 2, 3, 10, 50, 150, 300] if not thorough else [1, 2, 3, 5, 10, 25, 50, 100, 150, 200, 250, 299, 300]
     reqs, jobs = [], []
+    cases = []
     for kind in ("additive", "nonlinear"):
         for d in depths:
             if kind == "nonlinear" and d > 30:
@@ -237,7 +238,42 @@ def stream_chains(ctx, rng, thorough):
                     defs.append(("x%d" % i, e))
                     pv = {"mul": val * k, "div": val // k, "mod": val % k, "lshift": val << k, "rshift": val >> k, "and_": val & k, "xor": val ^ k, "or_": val | k}[op]
                     val = pv + i
-            use = ".word x%d & 177777" % d
+            cases.append((kind, d, defs, val, "x%d" % d))
+    # products (and sums of products) of two values that are both still pending where the product is written: each factor a
+    # sum or difference over a name defined further down through 1-3 more definitions
+    for _ in range(60 if thorough else 20):
+        defs, vals = [], {}
+        for root in ("wd", "ht"):
+            n = rng.randint(1, 3)
+            v = rng.randrange(1, 30)
+            names = [root] + ["%s%d" % (root, i) for i in range(1, n + 1)]
+            vals[names[-1]] = v
+            chain = [(names[-1], ("lit", v))]
+            for i in range(n - 1, -1, -1):
+                k = rng.randrange(0, 5)
+                sgn = rng.choice(["add", "add", "sub"])
+                v = v + k if sgn == "add" else v - k
+                chain.append((names[i], ("bin", sgn, ("ref", names[i + 1]), ("lit", k))))
+            vals[root] = v
+            defs += list(reversed(chain))
+        W, H = vals["wd"], vals["ht"]
+        c, c2 = rng.randrange(1, 9), rng.randrange(1, 9)
+        rW, rH = ("ref", "wd"), ("ref", "ht")
+        shape = rng.randrange(7)
+        e, val = [
+            (("bin", "mul", ("bin", "add", rW, ("lit", c)), rH), (W + c) * H),
+            (("bin", "mul", rW, ("bin", "add", rH, ("lit", c))), W * (H + c)),
+            (("bin", "mul", ("bin", "sub", rW, ("lit", c)), ("bin", "add", rH, ("lit", c2))), (W - c) * (H + c2)),
+            (("bin", "mul", ("bin", "add", rW, rH), rH), (W + H) * H),
+            (("bin", "mul", rW, rH), W * H),
+            (("bin", "add", ("bin", "mul", ("bin", "add", rW, ("lit", c)), rH), ("bin", "mul", ("bin", "sub", rH, rW), rW)), (W + c) * H + (H - W) * W),
+            (("bin", "mul", ("bin", "add", ("lit", c), rW), ("bin", "sub", ("lit", c2), rH)), (c + W) * (c2 - H)),
+        ][shape]
+        defs = [("area", e)] + defs
+        cases.append(("product", len(defs), defs, val, "area"))
+    for kind, d, defs, val, top in cases:
+        if True:
+            use = ".word %s & 177777" % top
             def_lines = ["%s = %s" % (nm, e_text(e)) for nm, e in defs]
             for link in (True, False):
                 variants = []
@@ -257,7 +293,7 @@ def stream_chains(ctx, rng, thorough):
                     text = (".link 2000\n" if link else "") + "\n".join(lines) + "\n"
                     variants.append(([("/w/c.mac", text)], order))
                 results = [impl.assemble(f, timeout=60) for f, _ in variants]
-                ctx.case(("chain", kind, d, link, c))
+                ctx.case(("chain", kind, d, link, def_lines[0], val))
                 ctx.count("chains-%s" % kind)
                 ctx.count("chain depth %d" % d)
                 want = (val & 0xffff).to_bytes(2, "little")
@@ -267,7 +303,7 @@ def stream_chains(ctx, rng, thorough):
                                       {"files": files if d <= 12 else [("/w/c.mac", "<chain of %d definitions, see rule>" % d)], "kind": kind, "depth": d, "order": order, "link_first": link},
                                       expected=want.hex(), observed=r.summary())
                         break
-            reqs.append("defs " + " ".join("d:%s:%s" % (nm, e_rpn(e)) for nm, e in defs) + " u:rx%d" % d)
+            reqs.append("defs " + " ".join("d:%s:%s" % (nm, e_rpn(e)) for nm, e in defs) + " u:r%s" % top)
             jobs.append((kind, d, val))
     for (kind, d, val), a in zip(jobs, ctx.driver.ask(reqs)):
         if a != "v:%d:-" % val:
